@@ -155,7 +155,8 @@ def gen_cases(tier, seed):
     names = ['../evil', '../../evil2', '/abs_evil', 'sub/../../evil3',
              'ok.txt', 'dir', '..', '.', 'a/b', '/tmp/vf_c13_abs',
              '..\\evil4', 'x\x00y', 'lnk', '', ' ', 'ok2', 'sub/..',
-             'dir/.', 'a/../..', 'ok.txt/..']
+             'dir/.', 'a/../..', 'ok.txt/..', '../', '..//', './', 'dir/',
+             '/', '//', '../.', '.../', '..\x00']
     for i in range(ng):
         entries = []
         for _ in range(rng.choice([1, 2, 3, 5])):
@@ -188,8 +189,25 @@ def gen_cases(tier, seed):
                       'follow': rng.random() < 0.3,
                       # modes and times are applied to what was created
                       'preserve': i % 3 == 0,
+                      # the destination named by the caller does not exist
+                      # yet: it becomes the copy of the source itself, and
+                      # its parent is already outside
+                      'fresh': i % 4 == 1,
                       'version': rng.choice([3, 3, 4]),
                       'cseed': rng.randrange(1 << 30)})
+
+    # directory entries whose names end in separators, copied into a
+    # destination that exists / is created by the call
+    for name in ('../', '..//', './', 'dir/', '.../', '../.', '..'):
+        for fresh in (True, False):
+            for version in (3, 4):
+                cases.append({'kind': 'get',
+                              'entries': [[name, 'dir', None],
+                                          ['ok.txt', 'file', 'data-ok']],
+                              'sub': [['planted.txt', 'file', 'sub-data']],
+                              'api': 'get', 'follow': False,
+                              'preserve': False, 'fresh': fresh,
+                              'version': version, 'cseed': 21})
 
     nc = 300 if tier == 'quick' else 4000
     for i in range(nc):
@@ -254,7 +272,9 @@ def _snapshot(tmp, root):
             continue
         for n in dirs + files:
             p = os.path.join(base, n)
-            if p == root:
+            if p == root or p == os.path.dirname(root):
+                # (creating the root itself touches its parent's times;
+                # anything planted there shows up as an entry of its own)
                 continue
             try:
                 st = os.lstat(p)
@@ -502,6 +522,12 @@ def _run_get(case, mon, viol):
                 sub = [(sn.encode('latin-1'), sk, se.encode())
                        for sn, sk, se in case['sub']]
                 ref.add_listing(posixpath.join(b'/src', n), sub)
+                # ... and under whatever spelling of that path a client
+                # may come back with
+                for alt in (posixpath.join(b'/src', n.rstrip(b'/')),
+                            posixpath.normpath(posixpath.join(b'/src', n))):
+                    if alt not in (b'/src', posixpath.join(b'/src', n)):
+                        ref.add_listing(alt, sub)
         ref.nodes[b'/src'] = ('dir', None)
         mon['hostile_names'] += sum(
             1 for n, _, _ in case['entries']
@@ -515,13 +541,18 @@ def _run_get(case, mon, viol):
                 apps.EventLog()), chunking='all', seed=case['cseed']) as env:
             conn = await env.connect()
             sftp = await conn.start_sftp_client(sftp_version=case['version'])
-            before = _snapshot(tmp, dest)
             errs = []
-            with fsmon.window([dest]) as w:
+            dst = dest
+            if case.get('fresh') and case['api'] == 'get':
+                dst = os.path.join(dest, 'new')
+                mon['fresh_destinations'] = \
+                    mon.get('fresh_destinations', 0) + 1
+            before = _snapshot(tmp, dst)
+            with fsmon.window([dst]) as w:
                 try:
                     if case['api'] == 'get':
                         t = asyncio.ensure_future(sftp.get(
-                            '/src', dest, recurse=True,
+                            '/src', dst, recurse=True,
                             follow_symlinks=case['follow'],
                             preserve=case.get('preserve', False),
                             error_handler=errs.append))
@@ -561,7 +592,7 @@ def _run_get(case, mon, viol):
                     info['exc'] = repr(exc)
             mon['get_listings'] += 1
             info['events'] = w.count
-            _judge_download(w, tmp, dest, before,
+            _judge_download(w, tmp, dst, before,
                             f'listing={case["entries"]} sub={case["sub"]} '
                             f'api={case["api"]} follow={case["follow"]}',
                             viol, mon)
